@@ -39,6 +39,12 @@ fn main() {
     // panics of the implementation are outcomes, not noise
     std::panic::set_hook(Box::new(|_| {}));
     let args: Vec<String> = std::env::args().collect();
+    if args.get(1).map(|s| s.as_str()) == Some("deep-child") {
+        // before stdout is locked below: the worker thread of the child prints its result itself
+        let mut token = String::new();
+        std::io::Read::read_to_string(&mut std::io::stdin(), &mut token).unwrap();
+        cases::c10::deep_child(&token);
+    }
     let stdout = std::io::stdout();
     let mut w = std::io::BufWriter::with_capacity(1 << 20, stdout.lock());
     match args.get(1).map(|s| s.as_str()) {
